@@ -16,7 +16,7 @@ CLAIMED = {
     "C01": ("exploration",
             "property-based testing (rapid) on a virtual-time rig (real server + real Manager over an in-memory network), exactly-once/intact oracle over token-carrying events; link-fault injection; concurrent use of the manager",
             "Three checks. c01-delivery: transport {polling, websocket, upgrade with emits falling into it}, recovery off/on, MaxBufferSize {64 KiB, 256 KiB, default}, 1..3 clients, 1..24 events of 25 schemas (16 Go argument shapes with Binary leaves, look-alike names, sizes around 32 KiB / 64 KiB) both ways from 1..4 goroutines per side; oracle: per (receiver, event) the multiset of tokens equals what was emitted, arguments tree-equal, no error, no close. c01-lossy-link: a two-way stream with every open TCP connection cut after d more bytes in one direction (reset or drained); oracle: events may be lost only together with a connection whose end is reported. c01-busy-manager: a binary stream while the client keeps using the same Manager (further namespaces, Open again, handlers, Connect/Disconnect of side namespaces); oracle: exactly once, intact, connection stays up. Held on everything generated; sampling, not exhaustive.",
-            "Virtual time: interleavings are those the bubble's scheduler produces plus forced yields at hook sites; real TCP stacks are not in the loop. Open findings KF-C01-1, KF-C01-2 (net/http repeats a poll whose answer was lost before its first byte) and KF-C05-1 (Disconnect then Connect at once), each excluded or tolerated by construction while its probe still fails, and counted.",
+            "Virtual time: interleavings are those the bubble's scheduler produces plus forced yields at hook sites; real TCP stacks are not in the loop. Open findings KF-C01-1 and KF-C01-2 (net/http repeats a poll whose answer was lost before its first byte), each excluded or tolerated by construction while its probe still fails, and counted.",
             "DESIGN.md §3 C01"),
     "C02": ("exploration",
             "property-based testing (rapid): wire-level check with an independent streaming decoder on a raw Engine.IO endpoint + handler-entry order on the rig",
